@@ -268,7 +268,11 @@ pub fn run_w9(n: u64, seed: u64, worker: usize, sink: &mut Sink) {
 // ------------------------------------------------------------------------------------------
 // C16: W10
 
-pub const ALPHABET: [&str; 36] = ["a", "h", "i", "`", "A", "H", "g", "0", "1", "8", "9", "n", "e", "s", "w", "N", "p", "P", "r", "R", "E", "m", "x", " ", "+", "-", "\u{0}", "é", "€", "😀", "š", "ɡ", "ｅ", "１", "٣", "ǈ"];
+/// Hostile alphabet: valid symbols, their neighbours (i ` 0 9), case variants, separators, NUL,
+/// 2/3/4-byte characters, Unicode digits, and characters whose code point equals a valid ASCII
+/// symbol modulo 256 (š ɡ ≡ a, ť ≡ e, ı ≡ 1, ĸ ≡ 8, Ů ≡ n, Ű ≡ p, Ų ≡ r, ٣ ≡ c, ｅ ≡ E) so that
+/// `char as u8` truncation bugs in any position are inside the exhaustive part.
+pub const ALPHABET: [&str; 42] = ["a", "h", "i", "`", "A", "H", "g", "0", "1", "8", "9", "n", "e", "s", "w", "N", "p", "P", "r", "R", "E", "m", "x", " ", "+", "-", "\u{0}", "é", "€", "😀", "š", "ɡ", "ｅ", "１", "٣", "ǈ", "ı", "ĸ", "Ů", "Ű", "Ų", "ť"];
 
 fn lower_piece_letters(s: &str) -> String {
     // piece letters may be upper case in the input
@@ -531,7 +535,7 @@ pub fn run_w10(random_n: u64, seed: u64, worker: usize, workers: usize, sink: &m
         let mut s = String::new();
         for _ in 0..len {
             if rng.chance(3, 4) {
-                s.push_str(ALPHABET[rng.below(36)]);
+                s.push_str(ALPHABET[rng.below(ALPHABET.len())]);
             } else if let Some(c) = char::from_u32(rng.below(0x11_0000) as u32) {
                 s.push(c);
             }
@@ -543,10 +547,10 @@ pub fn run_w10(random_n: u64, seed: u64, worker: usize, workers: usize, sink: &m
             match rng.below(3) {
                 0 => {
                     let i = rng.below(ch.len());
-                    ch[i] = ALPHABET[rng.below(36)].chars().next().unwrap();
+                    ch[i] = ALPHABET[rng.below(ALPHABET.len())].chars().next().unwrap();
                 }
-                1 => ch.push(ALPHABET[rng.below(36)].chars().next().unwrap()),
-                _ => ch.insert(0, ALPHABET[rng.below(36)].chars().next().unwrap()),
+                1 => ch.push(ALPHABET[rng.below(ALPHABET.len())].chars().next().unwrap()),
+                _ => ch.insert(0, ALPHABET[rng.below(ALPHABET.len())].chars().next().unwrap()),
             }
             s = ch.into_iter().collect();
         }
